@@ -30,4 +30,17 @@ def coalesceIdCaches : List Fact := [
   ("aucoalesce", "id_lookup.go", "ResolveIDs", "passes", "groupLookup to ResolveIDsFromCaches"),
   ("aucoalesce", "id_lookup.go", "ResolveIDs", "passes", "userLookup to ResolveIDsFromCaches")]
 
+/-- what one package ("" is the root package) reads of the process environment: the callees, in order. -/
+def envOf (p : String) : List String := (LA.Gen.State.envReads.filter (fun f => f.1 == p)).map (·.2)
+
+/-- root package: the clock (the Reassembler's deadlines), the process id (SetPID) and the page size (the default
+receive buffer of a netlink client). -/
+def rootEnv : List String := ["os.Getpagesize", "os.Getpid", "time.Now"]
+
+/-- package rule: the file type of a watched path and the user and group databases — the `Env` the rule model is given. -/
+def ruleEnv : List String := ["os.Stat", "os/user.Lookup", "os/user.LookupGroup", "os/user.LookupGroupId", "os/user.LookupId"]
+
+/-- package aucoalesce: the user and group databases and the clock of the id caches (ResolveIDs only). -/
+def coalesceEnv : List String := ["os/user.Lookup", "os/user.LookupGroup", "os/user.LookupGroupId", "os/user.LookupId", "time.Now"]
+
 end LA.StateFacts
